@@ -48,6 +48,7 @@ def dispatch (op : String) (args : List String) (impl : String) : Answer :=
   | "C17.rt" => c17Rt args impl
   | "C17.dec" => c17Dec args impl
   | "IX.exec" => ixExec args impl
+  | "IX.vec" => ixVec args impl
   | "IX.total" => ixTotal impl
   | "IX.totaljson" => ixTotal impl
   | "IX.dbg" => ixDbg args impl
